@@ -216,7 +216,7 @@ structure VState where
   index : Nat := 0
   prev : Bytes := []
   buffer : List Bytes := []
-  deriving Repr, DecidableEq
+  deriving Repr, DecidableEq, Inhabited
 
 def sigOk (v : Option (Bytes → Bytes → Bool)) (data sig : Bytes) : Bool :=
   match v with
@@ -255,6 +255,15 @@ def runFrom (T : Tables) (C : Crypto) (bs : Nat) (s : VState) : List Rec → Exc
     match step T C bs s e with
     | .error r => .error (s.index, r)
     | .ok s' => runFrom T C bs s' es
+
+/-- The same run with `CalculateHash` of each entry supplied by the caller (the drivers cache the
+digests of unchanged entries); `runFromWith … (L.map fun e => (C.H (hashInput T e), e)) = runFrom … L`. -/
+def runFromWith (T : Tables) (C : Crypto) (bs : Nat) (s : VState) : List (Bytes × Rec) → Except (Nat × Reason) VState
+  | [] => .ok s
+  | (c, e) :: es =>
+    match stepWith T C bs c s e with
+    | .error r => .error (s.index, r)
+    | .ok s' => runFromWith T C bs s' es
 
 def run (T : Tables) (C : Crypto) (bs : Nat) (log : List Rec) : Except (Nat × Reason) VState :=
   runFrom T C bs {} log
